@@ -11,7 +11,8 @@
 size_t g_len0, g_off0, g_cap0; /* ghosts: pre-state body geometry (RR_BODY_GHOSTS) */
 /* ghosts naming the members of the (bounded) intrusive lists, see spec.h */
 void *g_c1, *g_c2; /* first and second context on s->recvq / p->sendq */
-void *g_p1;        /* first pipe on s->recvpipes */
+void *g_p1, *g_p2;        /* first pipe on s->recvpipes */
 int   g_rq_shape;  /* number of contexts on the context list: 0, 1, 2 */
 int   g_rp_shape;  /* number of pipes on s->recvpipes: 0, 1 (+ the pipe under test where stated) */
 bool  g_c1_master; /* the first context is the socket's own context (&s->ctx) */
+void *g_sock;      /* the socket (contexts under contract point to it) */
